@@ -64,6 +64,92 @@ func watchdog(what string, body func()) {
 	}
 }
 
+// accounting (C19): 3 free-running producers x 20 rows into a direct query, input buffer of 1..2, result buffer of
+// 0..2 with and without a ToChannel reader; once everything is quiescent the rows seen by the sync sink plus
+// input_dropped_count must equal the number of Emit calls, no id twice, the block strategy without a timeout
+// drops nothing.
+func accounting(strategy string, iter int) {
+	watchdog(fmt.Sprint("accounting strategy=", strategy, " iter=", iter), func() {
+		pc := perf(strategy)
+		pc.BufferConfig.DataChannelSize = 1 + iter%2
+		pc.BufferConfig.ResultChannelSize = iter % 3
+		if strategy == "block" {
+			pc.OverflowConfig.BlockTimeout = 0
+		}
+		s := streamsql.New(streamsql.WithCustomPerformance(pc), streamsql.WithLogger(logger.NewDiscardLogger()))
+		if err := s.Execute("SELECT id FROM stream"); err != nil {
+			fmt.Println("EXECUTE ERROR accounting", err)
+			os.Exit(3)
+		}
+		var mu sync.Mutex
+		seen := map[int]int{}
+		s.AddSyncSink(func(rows []map[string]any) {
+			mu.Lock()
+			for _, r := range rows {
+				if id, ok := r["id"].(int); ok {
+					seen[id]++
+				}
+			}
+			mu.Unlock()
+		})
+		if iter%2 == 1 {
+			ch := s.ToChannel()
+			go func() {
+				for range ch {
+				}
+			}()
+		}
+		const producers, rows = 3, 20
+		var wg sync.WaitGroup
+		for p := 0; p < producers; p++ {
+			p := p
+			wg.Add(1)
+			go func() {
+				defer wg.Done()
+				for i := 0; i < rows; i++ {
+					s.Emit(map[string]any{"id": p*1000 + i})
+				}
+			}()
+		}
+		wg.Wait()
+		count := func() (processed int, dup bool) {
+			mu.Lock()
+			defer mu.Unlock()
+			for _, n := range seen {
+				processed++
+				if n > 1 {
+					dup = true
+				}
+			}
+			return
+		}
+		dropped := func() int64 { return s.GetStats()["input_dropped_count"] }
+		deadline := time.Now().Add(120 * time.Second)
+		for {
+			n, _ := count()
+			if int64(n)+dropped() >= producers*rows || time.Now().After(deadline) {
+				break
+			}
+			time.Sleep(time.Millisecond)
+		}
+		time.Sleep(5 * time.Millisecond)
+		n, dup := count()
+		d := dropped()
+		s.Stop()
+		switch {
+		case dup:
+			fmt.Println("WRONG RESULT UNDER CONCURRENCY: a row reached the sink twice; strategy", strategy, "iter", iter)
+			os.Exit(1)
+		case int64(n)+d != producers*rows:
+			fmt.Printf("WRONG RESULT UNDER CONCURRENCY: processed %d + input_dropped_count %d != %d emits (strategy %s, input buffer %d, result buffer %d)\n", n, d, producers*rows, strategy, pc.BufferConfig.DataChannelSize, pc.BufferConfig.ResultChannelSize)
+			os.Exit(1)
+		case strategy == "block" && d != 0:
+			fmt.Printf("WRONG RESULT UNDER CONCURRENCY: block without a timeout reports %d input drops\n", d)
+			os.Exit(1)
+		}
+	})
+}
+
 func one(kind, strategy string, iter int) {
 	watchdog(fmt.Sprint("kind=", kind, " strategy=", strategy, " iter=", iter), func() { oneBody(kind, strategy, iter) })
 }
@@ -371,6 +457,14 @@ func main() {
 		if prop == "C05" {
 			fmt.Printf("racepass: %d harness runs in %.1fs, no race reported\n", n, time.Since(start).Seconds())
 			return
+		}
+	}
+	if prop == "C19" || prop == "" {
+		for _, st := range []string{"drop", "block", "expand"} {
+			for i := 0; i < 2*iters; i++ {
+				accounting(st, i)
+				n++
+			}
 		}
 	}
 	for kind := range queries {
